@@ -24,4 +24,4 @@ Deliverables, all written into the directory {wt}/SEEDED/ (create it):
   2. demo_test.py - a self-contained demonstration (a pytest file or plain script run as `PYTHONPATH=<tree> /venv/bin/python demo_test.py`, exit status non-zero on failure) that FAILS with your change applied and PASSES on the original code. It must not need a network or a real memcached; use mocks/fake sockets as the repo's own tests do (see pymemcache/test/utils.py and pymemcache/test/test_client.py for MockSocket style). It must import pymemcache from PYTHONPATH, not hard-code paths.
   3. meta.json - {{"property": "{pid}", "summary": "<one sentence: what the change does>", "needs": "<what specific input/sequence/fault/interleaving is needed for it to manifest>", "files": [...], "ran": ["<the commands you ran and their outcome>"]}}
 
-Before finishing, verify all of this yourself: run the full existing suite with your change (must pass), run demo_test.py with your change (must fail), then `git stash` (or reverse the patch), run demo_test.py on the original code (must pass), and re-apply your change so the worktree ends with the change applied. Report briefly what you did and the results of those three runs. Do not commit anything.""")
+Before finishing, verify all of this yourself: run the full existing suite with your change (must pass), run demo_test.py with your change (must fail), then reverse the patch with `git apply -R SEEDED/patch.diff` (do NOT use `git stash`: the stash is shared between worktrees and other people are working in sibling worktrees), run demo_test.py on the original code (must pass), and re-apply your change with `git apply SEEDED/patch.diff` so the worktree ends with the change applied. Report briefly what you did and the results of those three runs. Do not commit anything.""")
